@@ -1,4 +1,281 @@
+/* eng_util.c - C10: valid call sequences on the utility classes (dataset, timeseries, summaries,
+ * alias tables) and sampler calls, from the dispatcher and from inside a simulated process (where
+ * MXCSR traps invalid operations and division by zero).  Oracle: the process dies or a sanitizer
+ * reports.  Sizes sit on both sides of the array-doubling thresholds (1024, 2048).
+ *
+ * Plan lines:
+ *   INIT inproc dataseed
+ *   DS n pattern | TS n pattern tpattern        (re)build dataset / timeseries with n >= 1 samples
+ *   DOP op a b | TOP op a b                     operation on the dataset / the timeseries
+ *   SUM n pattern | WSUM n pattern wpattern     data summary / weighted summary round trip
+ *   ALIAS n pattern k                           alias table with n entries, k draws
+ *   SAMPLE kind a                               one sampler call with boundary parameters
+ */
 #include "core.h"
-static void g(plan *p, uint64_t seed, const char *cfg) { (void)p; (void)seed; (void)cfg; }
-static void r(const plan *p) { (void)p; }
-const engine eng_util = { .name = "util", .props = "", .gen = g, .run = r, .rule = "stub" };
+#include <math.h>
+#include <stdlib.h>
+#include <string.h>
+#include <xmmintrin.h>
+#include "cimba.h"
+
+static const plan *P;
+static FILE *devnull;
+static vrng drng;
+static struct cmb_dataset *ds;
+static struct cmb_timeseries *ts;
+
+static double value_of(int pattern, int i, int n)
+{
+    switch (((pattern % 7) + 7) % 7) {
+        case 0: return (double)vrng_below(&drng, 10);
+        case 1: return 3.0;                                 /* constant data */
+        case 2: return (double)i;                           /* already sorted */
+        case 3: return (double)(n - i);                     /* reverse sorted */
+        case 4: return 1e9 + (double)vrng_below(&drng, 4);  /* large common offset */
+        case 5: return (double)vrng_below(&drng, 2);        /* many duplicates */
+        default: return (double)((int64_t)vrng_below(&drng, 2000) - 1000) / 8.0;
+    }
+}
+static int size_of(int64_t code)
+{
+    static const int sz[] = { 1, 2, 3, 4, 5, 7, 8, 9, 16, 31, 100, 1023, 1024, 1025, 2047, 2048, 2049, 3000 };
+    return sz[(uint64_t)code % (sizeof sz / sizeof sz[0])];
+}
+
+static void build_ds(int n, int pattern)
+{
+    if (ds) cmb_dataset_destroy(ds);
+    ds = cmb_dataset_create(); cmb_dataset_initialize(ds);
+    for (int i = 0; i < n; i++) (void)cmb_dataset_add(ds, value_of(pattern, i, n));
+}
+static void build_ts(int n, int pattern, int tpattern)
+{
+    if (ts) cmb_timeseries_destroy(ts);
+    ts = cmb_timeseries_create(); cmb_timeseries_initialize(ts);
+    double t = 0.0;
+    for (int i = 0; i < n; i++) {
+        (void)cmb_timeseries_add(ts, value_of(pattern, i, n), t);
+        switch (((tpattern % 4) + 4) % 4) {
+            case 0: t += 1.0; break;
+            case 1: t += (double)vrng_below(&drng, 3); break;           /* zero durations */
+            case 2: t += (i == 0) ? 1000.0 : 0.25; break;               /* one sample holds most of the duration */
+            default: t += (i % 2) ? 0.0 : 0.5; break;
+        }
+    }
+}
+
+static void ds_op(const struct cmb_dataset *d, int op, int64_t a, int64_t b)
+{
+    const uint64_t n = cmb_dataset_count(d);
+    double buf[66], buf2[66];
+    switch (((op % 12) + 12) % 12) {
+        case 0: cmb_dataset_sort(d); break;
+        case 1: (void)cmb_dataset_median(d); break;
+        case 2: cmb_dataset_fivenum_print(d, devnull, (a & 1) != 0); break;
+        case 3: {
+            const unsigned bins = 1 + (unsigned)((uint64_t)a % 30);
+            if (b % 3 == 0) cmb_dataset_histogram_print(d, devnull, bins, 0.0, 0.0);     /* autoscale */
+            else cmb_dataset_histogram_print(d, devnull, bins, -2.0, 2.0 + (double)(b % 7));
+            break; }
+        case 4: if (n > 1) { const unsigned lag = 1 + (unsigned)((uint64_t)a % (n - 1 > 64 ? 64 : n - 1)); cmb_dataset_ACF(d, lag, buf); } break;
+        case 5: if (n > 2) { const unsigned lag = 1 + (unsigned)((uint64_t)a % (n - 2 > 64 ? 64 : n - 2)); cmb_dataset_PACF(d, lag, buf, NULL); } break;
+        case 6: if (n > 2) { const unsigned lag = 1 + (unsigned)((uint64_t)a % (n - 2 > 64 ? 64 : n - 2)); cmb_dataset_ACF(d, lag, buf2); cmb_dataset_PACF(d, lag, buf, buf2); } break;
+        case 7: if (n > 1) { const unsigned lag = 1 + (unsigned)((uint64_t)a % (n - 1 > 64 ? 64 : n - 1)); cmb_dataset_correlogram_print(d, devnull, lag, NULL); } break;
+        case 8: { struct cmb_datasummary s; cmb_datasummary_initialize(&s); (void)cmb_dataset_summarize(d, &s);
+                  (void)cmb_datasummary_mean(&s); (void)cmb_datasummary_variance(&s); (void)cmb_datasummary_stddev(&s);
+                  (void)cmb_datasummary_skewness(&s); (void)cmb_datasummary_kurtosis(&s); cmb_datasummary_print(&s, devnull, true); cmb_datasummary_terminate(&s); break; }
+        case 9: { struct cmb_dataset *c = cmb_dataset_create(); cmb_dataset_initialize(c); (void)cmb_dataset_copy(c, d); (void)cmb_dataset_median(c); cmb_dataset_destroy(c); break; }
+        case 10: { /* cmb_dataset_merge() is declared in the header but defined nowhere (link error): not callable */
+                   struct cmb_dataset *c = cmb_dataset_create(); cmb_dataset_initialize(c); (void)cmb_dataset_copy(c, d); cmb_dataset_sort(c); cmb_dataset_reset(c); cmb_dataset_destroy(c); break; }
+        default: if (n <= 64) cmb_dataset_print(d, devnull); (void)cmb_dataset_min(d); (void)cmb_dataset_max(d); break;
+    }
+}
+
+static void ts_op(int op, int64_t a, int64_t b)
+{
+    const uint64_t n = cmb_timeseries_count(ts);
+    double buf[66];
+    switch (((op % 12) + 12) % 12) {
+        case 0: cmb_timeseries_sort_x(ts); break;
+        case 1: cmb_timeseries_sort_t(ts); break;
+        case 2: (void)cmb_timeseries_median(ts); break;
+        case 3: cmb_timeseries_fivenum_print(ts, devnull, (a & 1) != 0); break;
+        case 4: {
+            const uint16_t bins = (uint16_t)(1 + (uint64_t)a % 30);
+            if (b % 3 == 0) cmb_timeseries_histogram_print(ts, devnull, bins, 0.0, 0.0);
+            else cmb_timeseries_histogram_print(ts, devnull, bins, -2.0, 2.0 + (double)(b % 7));
+            break; }
+        case 5: { struct cmb_wtdsummary w; cmb_wtdsummary_initialize(&w); (void)cmb_timeseries_summarize(ts, &w);
+                  (void)cmb_wtdsummary_mean(&w); (void)cmb_wtdsummary_variance(&w); (void)cmb_wtdsummary_skewness(&w); (void)cmb_wtdsummary_kurtosis(&w);
+                  cmb_wtdsummary_print(&w, devnull, true); cmb_wtdsummary_terminate(&w); break; }
+        case 6: { struct cmb_timeseries *c = cmb_timeseries_create(); cmb_timeseries_initialize(c); (void)cmb_timeseries_copy(c, ts); (void)cmb_timeseries_median(c); cmb_timeseries_destroy(c); break; }
+        case 7: if (n > 1) { const unsigned lag = 1 + (unsigned)((uint64_t)a % (n - 1 > 64 ? 64 : n - 1)); cmb_timeseries_ACF(ts, lag, buf); } break;
+        case 8: if (n > 2) { const unsigned lag = 1 + (unsigned)((uint64_t)a % (n - 2 > 64 ? 64 : n - 2)); cmb_timeseries_PACF(ts, lag, buf, NULL); } break;
+        case 9: if (n <= 64) cmb_timeseries_print(ts, devnull); (void)cmb_timeseries_min(ts); (void)cmb_timeseries_max(ts); break;
+        case 10: ds_op((const struct cmb_dataset *)ts, (int)(a % 4), a, b); break;      /* the documented unweighted route */
+        default: { const struct cmb_dataset *d = (const struct cmb_dataset *)ts; (void)cmb_timeseries_finalize(ts, ts->ta[d->count - 1] + (double)(a % 3)); break; }
+    }
+}
+
+static void sum_roundtrip(int n, int pattern, int wpattern, bool weighted)
+{
+    if (!weighted) {
+        struct cmb_datasummary *a = cmb_datasummary_create(), *b = cmb_datasummary_create(), *c = cmb_datasummary_create();
+        cmb_datasummary_initialize(a); cmb_datasummary_initialize(b); cmb_datasummary_initialize(c);
+        for (int i = 0; i < n; i++) (void)cmb_datasummary_add((i % 2) ? a : b, value_of(pattern, i, n));
+        (void)cmb_datasummary_merge(c, a, b); (void)cmb_datasummary_merge(a, a, b);
+        (void)cmb_datasummary_mean(c); (void)cmb_datasummary_variance(c); (void)cmb_datasummary_stddev(c); (void)cmb_datasummary_skewness(c); (void)cmb_datasummary_kurtosis(c);
+        (void)cmb_datasummary_min(c); (void)cmb_datasummary_max(c); (void)cmb_datasummary_count(c);
+        cmb_datasummary_print(c, devnull, true); cmb_datasummary_print(a, devnull, false);
+        cmb_datasummary_reset(b); (void)cmb_datasummary_merge(c, b, b);
+        cmb_datasummary_destroy(a); cmb_datasummary_destroy(b); cmb_datasummary_destroy(c);
+    } else {
+        struct cmb_wtdsummary *a = cmb_wtdsummary_create(), *b = cmb_wtdsummary_create(), *c = cmb_wtdsummary_create();
+        cmb_wtdsummary_initialize(a); cmb_wtdsummary_initialize(b); cmb_wtdsummary_initialize(c);
+        for (int i = 0; i < n; i++) {
+            double w = 1.0;
+            switch (((wpattern % 4) + 4) % 4) { case 0: w = 1.0; break; case 1: w = (double)vrng_below(&drng, 3); break; case 2: w = (i == 0) ? 1000.0 : 0.5; break; default: w = 0.25 * (double)(1 + i % 3); break; }
+            (void)cmb_wtdsummary_add((i % 2) ? a : b, value_of(pattern, i, n), w);
+        }
+        (void)cmb_wtdsummary_merge(c, a, b); (void)cmb_wtdsummary_merge(b, a, b);
+        (void)cmb_wtdsummary_mean(c); (void)cmb_wtdsummary_variance(c); (void)cmb_wtdsummary_stddev(c); (void)cmb_wtdsummary_skewness(c); (void)cmb_wtdsummary_kurtosis(c);
+        cmb_wtdsummary_print(c, devnull, true);
+        cmb_wtdsummary_destroy(a); cmb_wtdsummary_destroy(b); cmb_wtdsummary_destroy(c);
+    }
+}
+
+static void alias_roundtrip(int n, int pattern, int k)
+{
+    if (n < 1) n = 1;
+    if (n > 300) n = 300;
+    double *pa = malloc(sizeof(double) * (size_t)n);
+    double sum = 0.0;
+    for (int i = 0; i < n; i++) {
+        switch (((pattern % 4) + 4) % 4) { case 0: pa[i] = 1.0; break; case 1: pa[i] = (double)(1 + vrng_below(&drng, 9)); break; case 2: pa[i] = (i == 0) ? 1000.0 : 1.0; break; default: pa[i] = (i % 3 == 0) ? 0.0 : 1.0; break; }
+        sum += pa[i];
+    }
+    if (sum <= 0.0) { pa[0] = 1.0; sum = 1.0; }
+    for (int i = 0; i < n; i++) pa[i] /= sum;
+    struct cmb_random_alias *ap = cmb_random_alias_create((unsigned)n, pa);
+    for (int i = 0; i < k; i++) { const unsigned r = cmb_random_alias_sample(ap); if (r >= (unsigned)n) viol("C10", "alias-index", "alias sample %u out of %d", r, n); }
+    for (int i = 0; i < k && n <= 15; i++) { const unsigned r = cmb_random_loaded_dice((unsigned)n, pa); (void)r; }
+    cmb_random_alias_destroy(ap);
+    free(pa);
+}
+
+static void sample_call(int kind, int64_t a)
+{
+    static const double means[] = { 1.0, 0.001, 1000.0, 1e-9 };
+    const unsigned z = (unsigned)((uint64_t)a % 4);
+    switch (((kind % 30) + 30) % 30) {
+        case 0: (void)cmb_random_geometric(z == 0 ? 1.0 : 0.5); break;               /* p = 1 is admissible: (0, 1] */
+        case 1: (void)cmb_random_bernoulli(z == 0 ? 1.0 : z == 1 ? 0.0 : 0.5); break;
+        case 2: (void)cmb_random_binomial(1 + z * 10, z == 0 ? 1.0 : 0.3); break;
+        case 3: (void)cmb_random_negative_binomial(1 + z, z == 0 ? 1.0 : 0.4); break;
+        case 4: (void)cmb_random_poisson(means[z]); break;
+        case 5: (void)cmb_random_dice(1, 2 + (long)z); break;
+        case 6: (void)cmb_random_exponential(means[z]); break;
+        case 7: (void)cmb_random_erlang(1 + z, means[z]); break;
+        case 8: (void)cmb_random_gamma(z == 0 ? 0.5 : z == 1 ? 1.0 : 0.05, 1.0); break;  /* shape < 1 */
+        case 9: (void)cmb_random_std_beta(0.5 + z, 0.5); break;
+        case 10: (void)cmb_random_weibull(0.5 + z, 1.0); break;
+        case 11: (void)cmb_random_pareto(1.0 + z, 1.0); break;
+        case 12: (void)cmb_random_chisquared(1.0 + z); break;
+        case 13: (void)cmb_random_F_dist(1.0 + z, 2.0); break;
+        case 14: (void)cmb_random_std_t_dist(1.0 + z); break;
+        case 15: (void)cmb_random_rayleigh(0.5 + z); break;
+        case 16: (void)cmb_random_triangular(0.0, z == 0 ? 0.0 : 1.0, z == 1 ? 1.0 : 2.0); break;   /* mode on a bound */
+        case 17: (void)cmb_random_PERT(0.0, 1.0, 3.0 + z); break;
+        case 18: (void)cmb_random_lognormal(0.0, 0.25 * (1 + z)); break;
+        case 19: (void)cmb_random_logistic(0.0, 1.0 + z); break;
+        case 20: (void)cmb_random_cauchy(0.0, 1.0 + z); break;
+        case 21: (void)cmb_random_normal(0.0, 1.0 + z); break;
+        case 22: (void)cmb_random_uniform(-1.0, 0.0 + z); break;
+        case 23: { double ma[3] = { 1.0, 0.5, 2.0 }; (void)cmb_random_hypoexponential(1 + z % 3, ma); break; }
+        case 24: { double ma[3] = { 1.0, 0.5, 2.0 }; double pa[3] = { 0.5, 0.25, 0.25 }; (void)cmb_random_hyperexponential(3, ma, pa); break; }
+        case 25: (void)cmb_random_flip(); break;
+        case 26: (void)cmb_random_std_normal(); break;
+        case 27: (void)cmb_random_std_exponential(); break;
+        case 28: (void)cmb_random_beta(1.0 + z, 2.0, -1.0, 1.0); break;
+        default: (void)cmb_random_t_dist(0.0, 1.0, 2.0 + z); break;
+    }
+}
+
+static void interpret(void)
+{
+    for (int i = 0; i < P->n; i++) {
+        const pline *l = &P->l[i];
+        g_stats.events++;
+        if (pis(l, "DS")) build_ds(size_of(pa(l, 0)), (int)pa(l, 1));
+        else if (pis(l, "TS")) build_ts(size_of(pa(l, 0)), (int)pa(l, 1), (int)pa(l, 2));
+        else if (pis(l, "DOP")) { if (!ds) build_ds(5, 0); ds_op(ds, (int)pa(l, 0), pa(l, 1), pa(l, 2)); }
+        else if (pis(l, "TOP")) { if (!ts) build_ts(5, 0, 0); ts_op((int)pa(l, 0), pa(l, 1), pa(l, 2)); }
+        else if (pis(l, "SUM")) sum_roundtrip((int)((uint64_t)pa(l, 0) % 40), (int)pa(l, 1), 0, false);
+        else if (pis(l, "WSUM")) sum_roundtrip((int)((uint64_t)pa(l, 0) % 40), (int)pa(l, 1), (int)pa(l, 2), true);
+        else if (pis(l, "ALIAS")) alias_roundtrip((int)((uint64_t)pa(l, 0) % 300) + 1, (int)pa(l, 1), (int)((uint64_t)pa(l, 2) % 200));
+        else if (pis(l, "SAMPLE")) sample_call((int)pa(l, 0), pa(l, 1));
+        TR2(l->op, pa(l, 0), pa(l, 1));
+    }
+}
+
+static void *proc_fn(struct cmb_process *me, void *ctx)
+{
+    (void)me; (void)ctx;
+#ifdef __clang__
+    /* clang converts double -> uint64_t with a speculative cvttsd2si that raises a spurious invalid-operation
+     * exception for values >= 2^63 (well-defined in C); with the exceptions Cimba unmasks inside a process that is
+     * a SIGFPE owed to the compiler, not to the library.  Real traps are judged on the gcc (rel) build. */
+    _mm_setcsr(0x1f80);
+#endif
+    interpret();
+    return NULL;
+}
+
+static void ut_run(const plan *p)
+{
+    cmb_logger_flags_off(CMB_LOGGER_INFO | CMB_LOGGER_WARNING);
+    P = p;
+    if (!devnull) devnull = fopen("/dev/null", "w");
+    bool inproc = false; uint64_t dseed = 1;
+    for (int i = 0; i < p->n; i++) if (pis(&p->l[i], "INIT")) { inproc = (pa(&p->l[i], 0) & 1) != 0; dseed = (uint64_t)pa(&p->l[i], 1); break; }
+    vrng_seed(&drng, dseed);
+    cmb_random_initialize(dseed ^ 0xabcdefull);
+    ds = NULL; ts = NULL;
+    if (inproc) {
+        cmb_event_queue_initialize(0.0);
+        struct cmb_process *pp = cmb_process_create();
+        cmb_process_initialize(pp, "util", proc_fn, NULL, 0);
+        cmb_process_start(pp);
+        cmb_event_queue_execute();
+        cmb_process_terminate(pp); cmb_process_destroy(pp);
+        cmb_event_queue_terminate();
+        PROBE("util.ran_inside_process");
+    } else interpret();
+    if (ds) cmb_dataset_destroy(ds);
+    if (ts) cmb_timeseries_destroy(ts);
+    g_stats.nontrivial = g_stats.events >= 3;
+}
+
+static void ut_gen(plan *p, uint64_t seed, const char *cfg)
+{
+    (void)cfg;
+    vrng r; vrng_seed(&r, seed);
+    plan_add(p, "INIT", 2, (int64_t)vrng_below(&r, 2), (int64_t)(vrng_next(&r) >> 20));
+    const int n = 3 + (int)vrng_below(&r, 14);
+    for (int i = 0; i < n; i++) {
+        const unsigned k = (unsigned)vrng_below(&r, 100);
+        if (k < 12) plan_add(p, "DS", 2, (int64_t)vrng_below(&r, vrng_chance(&r, 1, 3) ? 18 : 11), (int64_t)vrng_below(&r, 7));
+        else if (k < 24) plan_add(p, "TS", 3, (int64_t)vrng_below(&r, vrng_chance(&r, 1, 3) ? 18 : 11), (int64_t)vrng_below(&r, 7), (int64_t)vrng_below(&r, 4));
+        else if (k < 46) plan_add(p, "DOP", 3, (int64_t)vrng_below(&r, 12), (int64_t)vrng_below(&r, 100), (int64_t)vrng_below(&r, 20));
+        else if (k < 68) plan_add(p, "TOP", 3, (int64_t)vrng_below(&r, 12), (int64_t)vrng_below(&r, 100), (int64_t)vrng_below(&r, 20));
+        else if (k < 74) plan_add(p, "SUM", 2, (int64_t)vrng_below(&r, 40), (int64_t)vrng_below(&r, 7));
+        else if (k < 80) plan_add(p, "WSUM", 3, (int64_t)vrng_below(&r, 40), (int64_t)vrng_below(&r, 7), (int64_t)vrng_below(&r, 4));
+        else if (k < 85) plan_add(p, "ALIAS", 3, (int64_t)vrng_below(&r, vrng_chance(&r, 1, 2) ? 6 : 300), (int64_t)vrng_below(&r, 4), (int64_t)vrng_below(&r, 200));
+        else plan_add(p, "SAMPLE", 2, (int64_t)vrng_below(&r, 30), (int64_t)vrng_below(&r, 4));
+    }
+}
+
+const engine eng_util = {
+    .name = "util", .props = "C10", .gen = ut_gen, .run = ut_run,
+    .rule = "sequences of at least three utility-class or sampler calls",
+};
